@@ -117,8 +117,25 @@ def check(world, tier):
             if val[1][0] == 1:
                 f.ob(eof[0] == "i" and s.ctx.entails_eq(eof[1], lin.const(0)), "fill-true-after-short-read", "fill can return true although a short chunk was queued",
                      sample={"returns": True, "short chunk queued": False})
-    # sticky end of file across calls: a second run entered with the state left by a short read
-    sticky(world, f, fi)
+    # sticky end of file across calls. First: whenever fill returns after a short chunk may have been queued (ghost eof not known
+    # to be 0), it has recorded that fact - some bool field of the Window is known to be true in every such return state ...
+    flag_fields = [pth for (pth, ti, nm) in world.struct_leaves(WINDOW) if prog.types[ti]["k"] == "bool"]
+    short_rets = []
+    for s in e.finals:
+        eof = e.read(s, ("G",), ("eof",))
+        if not (eof[0] == "i" and s.ctx.entails_eq(eof[1], lin.const(0))):
+            short_rets.append(s)
+    f.need(len(short_rets), 1, "return states of fill after a short chunk")
+    latched = []
+    for pth in flag_fields:
+        vals = [e.read(s, self_root(e), tuple(pth)) for s in short_rets]
+        if short_rets and all(v[0] == "i" and s.ctx.entails_eq(v[1], lin.const(1)) for v, s in zip(vals, short_rets)):
+            latched.append(pth)
+    f.ob(bool(latched), "short-chunk-not-latched",
+         "fill can return after queueing a short chunk without having recorded the end of the file: the next fill() reads again and appends "
+         "another piece after the short one", sample={"bool fields true at every return after a short chunk": len(latched)})
+    # ... second: a run entered with exactly that record returns Ok(false) without reading or pushing
+    sticky(world, f, fi, latched)
     # ---------------------------------------------------------------- remove / add
     r = rep.clause("C18.remove", "remove(k): fails without effect when k > len; otherwise drains exactly the k oldest")
     e = runs["remove"]
@@ -188,12 +205,14 @@ def single_sym_of(e_):
     return e_[1][0][0] if len(e_[1]) == 1 else None
 
 
-def sticky(world, f, fi):
+def sticky(world, f, fi, latched=None):
     """fill entered with end-of-file already reached returns Ok(false) without reading or pushing"""
     prog = world.lib
     from analyzer.engine import ICONST
     eng = world.engine()
     flag_fields = [pth for (pth, ti, nm) in world.struct_leaves(WINDOW) if prog.types[ti]["k"] == "bool"]
+    if latched is not None:
+        flag_fields = [pth for pth in flag_fields if pth in latched]     # only what fill is known to have recorded
 
     def setup(e, st, fr):
         root = ("P", ("L", fr.id, 1), ())
